@@ -1029,6 +1029,11 @@ BREAKING += _W_BREAKING
 PRESERVING += _W_PRESERVING
 UNDECIDED += _W_UNDECIDED
 
+from .variants_dfu import BREAKING as _D_BREAKING, PRESERVING as _D_PRESERVING, UNDECIDED as _D_UNDECIDED  # noqa: E402
+BREAKING += _D_BREAKING
+PRESERVING += _D_PRESERVING
+UNDECIDED += _D_UNDECIDED
+
 # ---- round 6: the first-match search over a list of rule objects of a local class ----
 _ENV_ANCHOR = "    # used for imm evaluation\n    env = ChainMap(constants, labels)\n"
 _SEARCH_OLD = ("            for name, preds in criteria.items():\n                if all(pred(item, position, env) for pred in preds):\n"
